@@ -490,6 +490,51 @@ func (obj *Package) SetIfHas(name string, value Object, private bool) (vv *VarVa
 	return
 }
 
+// SetIfUnbound sets a variable unless it already has a value, in one step. It
+// is what defvar needs: of several routines defining the same variable one
+// sets it, the others leave it as it is. The return is the variable and
+// whether it was set by this call.
+func (obj *Package) SetIfUnbound(name string, value Object, privates ...bool) (vv *VarVal, set bool) {
+	name, value = obj.PreSet(obj, name, value)
+	private := 0 < len(privates) && privates[0]
+	obj.mu.Lock()
+	if vv = obj.vars[name]; vv != nil {
+		if (vv.Export || CurrentPackage == obj || private) && vv.Get == nil && vv.Set == nil && !vv.Const {
+			if set = Unbound == vv.Val; set {
+				vv.Val = value
+				if vv.Export {
+					for _, u := range obj.Users {
+						u.mu.Lock()
+						if _, has := u.vars[name]; !has {
+							u.vars[name] = vv
+						}
+						u.mu.Unlock()
+					}
+				}
+			}
+			obj.mu.Unlock()
+			if set {
+				callSetHooks(vv.Pkg, name)
+			}
+			return
+		}
+		// A variable with accessor functions, a constant or a variable
+		// not visible from here is handled as it is by Set.
+		obj.mu.Unlock()
+		return obj.Set(name, value, private), true
+	}
+	if obj.Locked {
+		obj.mu.Unlock()
+		PackagePanic(NewScope(), 0, obj, "Package %s is locked thus no new variables can be set.", obj.Name)
+	}
+	vv = &VarVal{Val: value, Pkg: obj, name: name}
+	obj.vars[name] = vv
+	obj.mu.Unlock()
+	callSetHooks(obj, name)
+
+	return vv, true
+}
+
 // DefConst a constant.
 func (obj *Package) DefConst(name string, value Object, doc string) (vv *VarVal) {
 	name, value = obj.PreSet(obj, name, value)
